@@ -797,12 +797,12 @@ func (p *printer) expr1(expr ast.Expr, prec1, depth int) {
 			// parenthesis needed
 			p.print(token.LPAREN)
 			p.print(token.MUL)
-			p.expr(x.X)
+			p.expr1(x.X, prec, depth)
 			p.print(token.RPAREN)
 		} else {
 			// no parenthesis needed
 			p.print(token.MUL)
-			p.expr(x.X)
+			p.expr1(x.X, prec, depth)
 		}
 
 	case *ast.UnaryExpr:
@@ -1077,11 +1077,11 @@ func (p *printer) expr1(expr ast.Expr, prec1, depth int) {
 			p.print(token.RBRACE)
 		}
 	case *ast.ErrWrapExpr:
-		p.expr(x.X)
+		p.expr1(x.X, token.HighestPrec, depth)
 		p.print(x.Tok)
 		if x.Default != nil {
 			p.print(token.COLON)
-			p.expr(x.Default)
+			p.expr1(x.Default, token.UnaryPrec, depth)
 		}
 	case *ast.LambdaExpr:
 		if x.LhsHasParen {
